@@ -716,7 +716,13 @@ static void build_expr(WorkList *list, ASTNode *expr, Environment *env) {
                     emit_formatted(list, "%lldLL", (long long)sym->value.as.int_val);
                     return;
                 } else if (sym->value.type == VAL_FLOAT) {
-                    emit_formatted(list, "%g", sym->value.as.float_val);
+                    /* Emit the value exactly as a float literal is emitted:
+                     * a bare "%g" prints 5.0 as the C int `5`, so that
+                     * (/ fa fb) became an integer division */
+                    ASTNode float_lit = *expr;
+                    float_lit.type = AST_FLOAT;
+                    float_lit.as.float_val = sym->value.as.float_val;
+                    build_expr(list, &float_lit, env);
                     return;
                 } else if (sym->value.type == VAL_BOOL) {
                     emit_literal(list, sym->value.as.bool_val ? "true" : "false");
